@@ -590,6 +590,9 @@ impl<'tcx> Cx<'tcx> {
         ];
         if matches!(kind, DefKind::Fn | DefKind::AssocFn) {
             f.push(("vis".into(), s(format!("{:?}", tcx.visibility(did)))));
+            if let Some(ld) = did.as_local() {
+                f.push(("reach".into(), J::B(tcx.effective_visibilities(()).is_reachable(ld))));
+            }
             let sig = tcx.fn_sig(did).instantiate_identity().skip_norm_wip().skip_binder();
             f.push(("unsafe".into(), J::B(!sig.safety().is_safe())));
             let ins: Vec<J> = sig.inputs().iter().map(|t| self.ty(*t)).collect();
